@@ -8,7 +8,9 @@ PROP = "C16"
 CORR = "vf.corr.conv"
 CLASSES = {"union-firstmatch-lossy": "-", "union-prim-coercion": "-",
            # classes of the shared converter oracle that belong to C16 / C03
-           "leaf-uuid-unsupported": "-", "leaf-time-unsupported": "-", "error-path-lost-through-optional": "F49", "serializer-cycle-recursion": "F26",
+           # (leaf-uuid-unsupported / leaf-time-unsupported - F10, repaired - are not listed: a UUID / time value that does not decode
+           #  or is left in the serializer's output is a violation here as well)
+           "error-path-lost-through-optional": "F49", "serializer-cycle-recursion": "F26",
            "serializer-dict-leaks-instance": "F48", "serializer-registry-dependent": "F48"}
 
 
